@@ -37,6 +37,10 @@ pub enum Ack {
 pub struct Script {
 	/// per subscribe call k: the command receiver the handler will take, and the ack sender
 	pub slots: Mutex<HashMap<u64, (mpsc::UnboundedReceiver<Cmd>, mpsc::UnboundedSender<Ack>)>>,
+	/// which of the equivalent ways of doing a step the handlers of this case use (the spec does not distinguish them):
+	/// bit 0: `dropSink` lets go of the oldest sink (the one `accept()` returned) instead of the newest clone;
+	/// bits 1-2: notifications go out through `send`, `send_timeout` or `try_send` (retried while the queue is full)
+	pub variant: std::sync::atomic::AtomicU64,
 }
 
 pub fn scripted_module(script: Arc<Script>) -> RpcModule<Arc<Script>> {
@@ -80,6 +84,7 @@ pub fn scripted_module(script: Arc<Script>) -> RpcModule<Arc<Script>> {
 		};
 		// ---- stage 2: the sinks live in a keeper task of their own, so that they can outlive the handler future
 		let (ret_tx, ret_rx) = tokio::sync::oneshot::channel::<bool>();
+		let variant = ctx.variant.load(std::sync::atomic::Ordering::Relaxed);
 		tokio::spawn(async move {
 			let mut sinks: Vec<SubscriptionSink> = vec![first_sink];
 			let mut ret_tx = Some(ret_tx);
@@ -91,13 +96,36 @@ pub fn scripted_module(script: Arc<Script>) -> RpcModule<Arc<Script>> {
 						let _ = ack.send(Ack::Ok);
 					}
 					Cmd::DropSink => {
-						sinks.pop();
+						if variant & 1 == 1 && sinks.len() > 1 {
+							drop(sinks.remove(0));
+						} else {
+							sinks.pop();
+						}
 						let _ = ack.send(Ack::Ok);
 					}
 					Cmd::Send(n) => {
 						let raw = serde_json::value::to_raw_value(&n).unwrap();
-						let r = sinks[0].send(SubscriptionMessage::from(raw)).await;
-						let _ = ack.send(if r.is_ok() { Ack::Ok } else { Ack::Err });
+						let last = sinks.len() - 1;
+						let ok = match (variant >> 1) % 3 {
+							0 => sinks[0].send(SubscriptionMessage::from(raw)).await.is_ok(),
+							1 => sinks[last].send_timeout(SubscriptionMessage::from(raw), Duration::from_secs(5)).await.is_ok(),
+							_ => {
+								// try_send, retried while the connection's queue is momentarily full: the same meaning as send
+								let mut ok = false;
+								for _ in 0..10_000 {
+									match sinks[last].try_send(SubscriptionMessage::from(raw.clone())) {
+										Ok(()) => {
+											ok = true;
+											break;
+										}
+										Err(jsonrpsee_server::TrySendError::Full(_)) => tokio::task::yield_now().await,
+										Err(_) => break,
+									}
+								}
+								ok
+							}
+						};
+						let _ = ack.send(if ok { Ack::Ok } else { Ack::Err });
 					}
 					Cmd::IsClosed => {
 						let _ = ack.send(Ack::Closed(sinks.iter().map(|s| s.is_closed()).collect()));
@@ -332,7 +360,7 @@ pub fn replay(cases: &[Value], out: &mut Out) {
 			handles.push(tokio::spawn(async move {
 				let mut v = vec![];
 				for (i, c) in chunk {
-					v.push((i, one_case(&c).await));
+					v.push((i, one_case(&c, i).await));
 				}
 				v
 			}));
@@ -345,13 +373,14 @@ pub fn replay(cases: &[Value], out: &mut Out) {
 	});
 }
 
-async fn one_case(c: &Value) -> (Vec<(String, Value)>, Value) {
+async fn one_case(c: &Value, idx: usize) -> (Vec<(String, Value)>, Value) {
 	let cap = c["cap"].as_u64().unwrap() as u32;
 	let conn_of_map: HashMap<u64, u64> =
 		c["connof"].as_array().map(|a| a.iter().enumerate().map(|(i, v)| (i as u64 + 1, v.as_u64().unwrap())).collect()).unwrap_or_default();
 	let nconns = conn_of_map.values().max().cloned().unwrap_or(1);
 	let conn_of = move |k: u64| *conn_of_map.get(&k).unwrap_or(&1);
 	let mut w = World::new(cap, nconns, 64).await;
+	w.script.variant.store(idx as u64, std::sync::atomic::Ordering::Relaxed);
 	let mut probs: Vec<(String, Value)> = vec![];
 	let path = c["path"].as_array().unwrap();
 	let mut log = vec![];
